@@ -30,7 +30,14 @@ MANIFEST = {
             "of it: the oracle of the crcv / srcv ops); block2_hostile_per_block (per-block mode hands over this response's payload).  "
             "RELEASE CALLBACK: adl_release_once (every exit path of coap_add_data_large_internal calls it once or hands it to exactly "
             "one linked lg_xmit) + release_exactly_once (any create/delete/session-free sequence: never twice, exactly once at session free).  "
-            "request_tag_tells_transfers_apart (lg_srcv lookup keyed by Request-Tag presence AND value, EMPTY tag included).  COMPOSED, Block2: "
+            "request_tag_tells_transfers_apart (lg_srcv lookup keyed by Request-Tag presence AND value, EMPTY tag included).  "
+            "WHAT THE CLIENT'S HANDLERS SEE (Model/BlockTok.lean): block2_unsolicited_dropped + at_most_once_block2_unsolicited + "
+            "at_most_once_block2_non (coap_handle_response_get_block with sent == NULL: once the body / the completing block has been handed "
+            "over the lg_crcv is released and NO Block2 response arriving without an outstanding request - a duplicate or late copy of any "
+            "block, the last one included - reaches the handler; a Non-confirmable transfer hands the body over at most once along EVERY "
+            "response sequence); nack_shows_application_token + nack_token_of_its_transfer (coap_check_update_token, which coap_handle_nack "
+            "runs in front of the NACK handler: for every session state, a PDU whose token was derived from the state token of a transfer "
+            "held in the lg_crcv or lg_xmit list - at ANY position - is shown with that transfer's application token).  COMPOSED, Block2: "
             "never_wrong_body_block2_composed_partial - libcoap server (first block via adlBody on the response path's parameters, "
             "response_path_params_ok; follow-ups via xmitB2Step; fresh ETag per lg_xmit) "
             "o network (any loss / duplication / delay / reordering, repeated GETs, time-outs of either side at any moment) o libcoap client, for "
@@ -38,11 +45,14 @@ MANIFEST = {
             "never_wrong_body_block1_composed_partial - libcoap client (addDataLarge + xmitB1Step, early size renegotiation) o network o libcoap "
             "server (srcvStep, single-body, 2.31 with the request's SZX or the server's maximum for block 0), EVERY schedule, no hypothesis on "
             "datagrams: whatever the server's application gets is exactly the client's body.  TRACE-CHECKED ONLY (real client + real server "
-            "contexts, virtual clock, drop/duplicate schedules, oracle over the trace; no Lean model): retransmission timers, token "
-            "substitution/restoration, CON/NON, lossless => one delivery + one success response, exhausted Confirmable => NACK or error response, "
+            "contexts, virtual clock, drop/duplicate schedules plus content-keyed faults - block k / the LAST block of transfer 1 or 2 "
+            "duplicated, delivered again seconds later, lost once, lost with all its retransmissions -, oracle over the trace; no Lean "
+            "model of the whole): retransmission timers, token substitution/restoration end to end (a wire token shown to a handler while the "
+            "session still holds the transfer's lg_crcv / lg_xmit is a violation; so is a Block2 response handed over without lg_crcv and "
+            "without request; only a message whose transfer state is gone falls under the open finding), CON/NON, lossless => one delivery + one success response, exhausted Confirmable => NACK or error response, "
             "MTU bound on every datagram.  Not covered: Q-Block (RFC 9177), BERT, Block+Observe.",
     "note": "Trusted: Lean kernel (+ propext, Classical.choice, Quot.sound), the T1 extractor, harness/block.c + block_sim.h + sim_core.h, generators, "
-            "the Python trace oracle, the hand transcriptions M (Model/Block.lean, BlockCrcv.lean, BlockXmit.lean, BlockRtag.lean; checked against the "
+            "the Python trace oracle, the hand transcriptions M (Model/Block.lean, BlockCrcv.lean, BlockXmit.lean, BlockRtag.lean, BlockTok.lean; checked against the "
             "compiled code only on the cases run).  SPEC DECISIONS D6 (duplicated request datagram = new request), D13, D14, D15 (refusing for lack "
             "of room is an explicit failure), D16 (abandoned = retransmissions exhausted).  One open finding is reported as KNOWN-FINDING "
             "(c09-late-message-raw-token).  Against a NON-libcoap peer the 'sender's body' of the property is not defined; what is proved there is "
@@ -61,7 +71,9 @@ REQUIRED_THEOREMS = ["block_opt_roundtrip", "blocks_tile_body", "rblock_represen
                      "block2_hostile_no_unwritten_bytes", "block2_hostile_prefix_of_body", "block2_hostile_per_block",
                      "block1_hostile_no_unwritten_bytes", "block1_hostile_prefix_of_body",
                      "request_tag_tells_transfers_apart", "never_wrong_body_block2_composed_partial",
-                     "never_wrong_body_block1_composed_partial", "response_path_params_ok"]
+                     "never_wrong_body_block1_composed_partial", "response_path_params_ok",
+                     "block2_unsolicited_dropped", "at_most_once_block2_unsolicited", "at_most_once_block2_non",
+                     "nack_shows_application_token", "nack_token_of_its_transfer"]
 RULE = ("Layer A: block option values (all single bytes, random 0-3 byte values, boundary NUMs), setup_block_b / coap_write_block_b_opt / "
         "coap_add_data_large_request with the available room around every power of two, slices of bodies whose length is k*2^(szx+4)+{-1,0,1} "
         "for szx 0..6 and random lengths to 64 KiB, every 3-insertion sequence over 5 block numbers plus random longer ones for the received "
@@ -74,17 +86,26 @@ RULE = ("Layer A: block option values (all single bytes, random 0-3 byte values,
         "and blocks without More anywhere (crcv, both modes), a server asking for larger Block1 sizes at any point (xmit1), a client that changes "
         "SZX in both directions, sends short blocks / blocks without More anywhere, any Size1, blocks far ahead, in any order (srcv2); every "
         "crcv / srcv* line is run twice with different allocation poisons (the output must not depend on never-written memory), every line "
-        "must free what it allocated, a refused coap_add_data_large_request must not leave pdu->lg_xmit dangling; Layer B: whole transfers "
+        "must free what it allocated, a refused coap_add_data_large_request must not leave pdu->lg_xmit dangling; the real "
+        "coap_handle_response_get_block with sent == NULL (crcvs: Non-confirmable transfers, every block - the last in particular - duplicated "
+        "at once or after completion, stray Block2 responses on a session that waits for nothing, both modes); the real "
+        "coap_check_update_token on sessions with 0-4 lg_crcv and 0-3 lg_xmit entries, the abandoned PDU carrying the wire token (any retry "
+        "counter) of the entry at the head / middle / end of either list, an application token or a foreign token (ctok); Layer B: whole transfers "
         "(PUT/Block1 with libcoap's or the application's Request-Tag incl. EMPTY, GET/Block2, hand-built Block1 without Size1) "
         "between a real client and server context under drop/duplicate schedules over the first 4-13 datagrams, MTU 64..1500, SZX asked "
         "by either side, CON/NON, single-body/per-block, two concurrent transfers (also to one resource, told apart by Request-Tag only); "
+        "the same under content-keyed faults: the request / response with block 0, 1, k, the LAST block of transfer 1 or 2 delivered twice, "
+        "delivered again 0.3-100 s later, lost once, or lost with every retransmission (Confirmable exchange abandoned while the other "
+        "transfer goes on); "
         "non-trivial = the real code did not refuse the input")
 TRUSTED_BASE = ["Lean 4.33 kernel; axioms allowed: propext, Classical.choice, Quot.sound (audited per theorem each run)",
                 "T1 extractor extract/blockconst.c and its renderer", "harness/block.c (incl. its coap_malloc_type / coap_realloc_type / "
                 "coap_free_type wrap: poison fill up to 64 MiB per allocation, live count), harness/block_sim.h, harness/sim_core.h, generators, "
                 "the Python trace oracle (judge_xfer) and string comparison",
-                "M (CoapVerif/Model/Block.lean, BlockCrcv.lean, BlockXmit.lean, BlockRtag.lean) is a hand transcription; checked against the compiled "
-                "code only on the cases run (ops srcv srcv2 srcv3 crcv xmit1 xmit2 and the Layer A ops)"]
+                "M (CoapVerif/Model/Block.lean, BlockCrcv.lean, BlockXmit.lean, BlockRtag.lean, BlockTok.lean) is a hand transcription; checked "
+                "against the compiled code only on the cases run (ops srcv srcv2 srcv3 crcv crcvs ctok xmit1 xmit2 and the Layer A ops)",
+                "Layer B attribution: harness/block_sim.h maps a wire token to its transfer by the Uri-Path / Request-Tag of the client request "
+                "it first appeared in, and reads session->lg_crcv / lg_xmit inside the handlers to tell whether libcoap still holds the transfer"]
 ASSUMPTIONS = ["block numbers < 2^31 at every call of the range functions (coap_get_block_b rejects NUM > 0xFFFFF)",
                "Layer B: receiver and sender automata are proved separately and composed over the lossy network in Model/BlockNet.lean, one "
                "transfer per direction (Block1: single-body server, one lg_srcv, body < 2^31; "
@@ -103,6 +124,12 @@ ASSUMPTIONS = ["block numbers < 2^31 at every call of the range functions (coap_
                "fail; size_t is 64 bits (Size2 + chunk does not wrap); plain Block2 (no Q-Block2, BERT, Observe)",
                "block1_hostile_*: NUM < 2^20 and SZX <= 6 on every request (what coap_get_block_b lets through: block_opt_bounds); allocation never "
                "fails; plain Block1, COAP_BLOCK_SINGLE_BODY, one lg_srcv",
+               "at_most_once_block2_unsolicited / at_most_once_block2_non: 2.xx responses carrying a Block2 option coap_get_block_b accepts; `sent` "
+               "is NULL exactly when coap_dispatch found no Confirmable request with the response's message id (read in coap_net.c, not modelled); "
+               "a response WITH `sent` but without lg_crcv is still handed over (random access) - that is the open finding's class",
+               "nack_token_of_its_transfer: entries with the same STATE_TOKEN_BASE carry the same application token (libcoap numbers state tokens "
+               "from session->tx_token; an lg_xmit and its lg_crcv share both), the application did not choose a token equal to one on the wire; "
+               "tokens of at most 8 bytes",
                "release_exactly_once: every deletion site unlinks a list member before coap_block_delete_lg_xmit (checked by reading all 10 sites)",
                "compiled Lean definitions agree with the kernel's reading of them"]
 SPEC_DECISIONS = ["D15 coap_add_data_large_request/_response returning 0 (no room for even the smallest block within the maximum "
@@ -623,12 +650,112 @@ def gen_rtag(rng, n):
     return L
 
 
+def gen_crcvs(rng, n):
+    """the client's Block2 receive path with `sent` possibly NULL (real coap_handle_response_get_block): Non-confirmable
+    transfers (the lg_crcv set up at send time, every response without a request PDU), duplicates of any block — the LAST
+    one in particular — right away or after the transfer completed, late copies of earlier blocks, stray Block2 responses on
+    a session that waits for nothing, a new transfer (piggybacked, `sent` given) after the stray ones; both delivery modes"""
+    L = []
+    for _ in range(n):
+        szx = rng.randrange(3) if rng.random() < 0.8 else rng.randrange(7)
+        c = 1 << (szx + 4)
+        ln = rng.choice([rng.randrange(1, 7 * c), rng.randrange(1, 6) * c, rng.randrange(1, 6) * c + 1, rng.randrange(1, 6) * c - 1])
+        nb = (ln + c - 1) // c
+        single = rng.choice([1, 1, 0])
+        init = rng.choice([1, 1, 1, 0])
+        kind = rng.choice(["non", "non", "non", "mixed", "stray"])
+        etag = rng.choice([0, 0, 5])
+        def it(u, k, s_=None, e=None):
+            s_ = szx if s_ is None else s_
+            m = 1 if (k + 1) * (1 << (s_ + 4)) < ln else 0
+            return "%d.%d.%d.%d.%d.%d" % (u, k, m, s_, etag if e is None else e, 42)
+        items = []
+        if kind == "stray" or not init:
+            # nothing outstanding: whatever arrives with a Block2 option and without a request is not for the application
+            for _ in range(rng.randrange(1, 4)):
+                items.append(it(1, rng.randrange(nb + 1)))
+            if rng.random() < 0.7:
+                items += [it(0, k) for k in range(nb)]          # a transfer whose responses are piggybacked
+        else:
+            u0 = 1 if kind == "non" else rng.choice([0, 1])
+            order = list(range(nb))
+            if rng.random() < 0.2:
+                rng.shuffle(order)
+            for k in order:
+                u = u0 if kind == "non" else rng.choice([0, 1])
+                items.append(it(u, k))
+                r = rng.random()
+                if r < 0.15:
+                    items.append(it(1, k))                       # the network duplicates this datagram
+                elif r < 0.2 and k:
+                    items.append(it(1, rng.randrange(k)))        # an old one arrives late
+        # after the transfer: copies of the last block, of the first, of any; once or several times
+        r = rng.random()
+        tail = []
+        if r < 0.45:
+            tail = [it(1, nb - 1)] * rng.choice([1, 1, 2])
+        elif r < 0.6:
+            tail = [it(1, 0)]
+        elif r < 0.8:
+            tail = [it(1, rng.randrange(nb)) for _ in range(rng.randrange(1, 4))]
+        elif r < 0.85:
+            tail = [it(1, nb - 1, e=rng.choice([0, 5, 6]))]
+        items += tail
+        if rng.random() < 0.15:
+            items += [it(rng.choice([0, 1]), k) for k in range(nb)]   # … and the body once more
+        L.append("crcvs %d %d %d %s %d %s" % (single, ln, rng.randrange(256), rng.choice([str(ln), "-"]), init, ",".join(items[:40])))
+    return L
+
+
+def tok_hex(v):
+    """coap_encode_var_safe8"""
+    b = b""
+    while v:
+        b = bytes([v & 0xff]) + b
+        v >>= 8
+    return b.hex() if b else "-"
+
+
+def gen_ctok(rng, n):
+    """coap_check_update_token on sessions with 0..4 lg_crcv and 0..3 lg_xmit entries: the abandoned PDU carries the wire
+    token (any retry counter) of the transfer at the head / in the middle / at the end of either list, an application
+    token, a foreign token; requests and responses; an lg_xmit together with the lg_crcv coap_send sets up for it"""
+    L = []
+    for _ in range(n):
+        nc, nx = rng.choice([0, 1, 2, 2, 3, 4]), rng.choice([0, 0, 1, 2, 3])
+        bases = rng.sample(range(1, 40), nc + nx) if rng.random() < 0.8 else [rng.randrange(1, 1 << 44) for _ in range(nc + nx)]
+        def app():
+            return bytes(rng.randrange(256) for _ in range(rng.choice([1, 2, 4, 4, 8, rng.randrange(0, 9)])))
+        def state(b):
+            return b + (rng.choice([0, 1, 2, rng.randrange(1 << 20)]) << 44)
+        cr = [(app(), state(b)) for b in bases[:nc]]
+        xm = [(app(), state(b)) for b in bases[nc:]]
+        if xm and rng.random() < 0.6:
+            # coap_send_lkd: the lg_crcv of a Block1 request shares application and state token with its lg_xmit
+            cr.insert(rng.randrange(len(cr) + 1), (xm[0][0], xm[0][1]))
+        if cr and rng.random() < 0.05:
+            cr.append((app(), cr[0][1]))                      # two entries with one base (cannot happen in libcoap): M-vs-I only
+        allents = cr + xm
+        r = rng.random()
+        if allents and r < 0.7:
+            e = rng.choice(allents) if rng.random() < 0.5 else allents[rng.choice([0, -1, len(cr) - 1 if cr else 0])]
+            tok = tok_hex((e[1] & ((1 << 44) - 1)) + (rng.choice([1, 1, 2, 3, rng.randrange(1 << 20)]) << 44))
+        elif allents and r < 0.85:
+            tok = rng.choice(allents)[0].hex() or "-"
+        else:
+            tok = bytes(rng.randrange(256) for _ in range(rng.randrange(0, 9))).hex() or "-"
+        fmt = lambda es: ",".join("%s/%d" % (a.hex() or "-", st) for a, st in es) or "-"
+        L.append("ctok %d %s %s %s" % (rng.choice([1, 1, 1, 0]), tok, fmt(cr[:8]), fmt(xm[:8])))
+    return L
+
+
 def generate(ctx, escalate=False):
     n = 3000 if ctx.thorough() else 400
     if escalate:
         n *= 3
     return gen_layer_a(ctx, n) + gen_crcv(ctx.rng, n * 2) + gen_xmit(ctx.rng, n) + gen_rtag(ctx.rng, n) + gen_layer_b(ctx, n * 3) + \
-        gen_crcv_hostile(ctx.rng, n * 2) + gen_xmit1_hostile(ctx.rng, n) + gen_srcv_hostile(ctx.rng, n * 2)
+        gen_crcv_hostile(ctx.rng, n * 2) + gen_xmit1_hostile(ctx.rng, n) + gen_srcv_hostile(ctx.rng, n * 2) + \
+        gen_crcvs(ctx.rng, n) + gen_ctok(ctx.rng, n) + gen_layer_b_rules(ctx, n)
 
 
 # --------------------------------------------------------------------------
@@ -784,7 +911,37 @@ def spec_layer_a(ctx, c):
                     return "the handler was given %s, the sender's body is %d bytes hash %s" % (o, ln, fnv(body))
                 if int(f[1]) != ln and not any(x.split(".")[0] == "0" and x.split(".")[1] == "0" for x in w[5].split(",")):
                     return "the handler was given %s bytes of a %d-byte body" % (f[1], ln)
-    elif op == "crcv":
+    elif op == "ctok":
+        # the handler must be shown the application's token of the transfer the abandoned PDU's token was derived from
+        ents = lambda x: [] if x == "-" else [(e.split("/")[0], int(e.split("/")[1])) for e in x.split(",")]
+        cr, xm = ents(w[3]), ents(w[4])
+        seen = cr + (xm if w[1] != "0" else [])
+        tokb = bytes.fromhex(w[2]) if w[2] != "-" else b""
+        base = int.from_bytes(tokb[:8], "big") & ((1 << 44) - 1)
+        if not any(a == w[2] for a, _ in cr + xm):
+            cand = {a for a, st in seen if (st & ((1 << 44) - 1)) == base}
+            if len(cand) == 1 and i != list(cand)[0]:
+                return "the abandoned PDU carries a token libcoap derived from the state token of the transfer with application token %s, " \
+                       "which the session still holds; the NACK handler is shown token %s" % (list(cand)[0], i)
+    elif op in ("crcv", "crcvs"):
+        if op == "crcvs":
+            # normalise to the crcv form; u = 1: the response came without a request PDU (`sent` NULL)
+            us = [int(x.split(".")[0]) for x in w[6].split(",")]
+            init = int(w[5])
+            w = ["crcv", w[1], w[2], w[3], w[4], ",".join(x.split(".", 1)[1] for x in w[6].split(","))]
+            outs = i.replace(" UNINIT", "").split(",")
+            state = "I" if init else "-"
+            finals = 0
+            for u, o in zip(us, outs):
+                handed = re.match(r"[hH]\d+:", o)
+                if u and state == "-" and handed:
+                    return "a Block2 response that answers no outstanding request and belongs to no transfer the session holds (a " \
+                           "duplicate / late copy once the transfer is over) was handed to the response handler: " + o
+                if o.startswith("H"):
+                    finals += 1
+                state = o.rsplit("/", 1)[1] if "/" in o else state
+            if all(us) and finals > 1:
+                return "Non-confirmable transfer: the body / the completing block was handed to the response handler %d times" % finals
         single, ln, seed = int(w[1]), int(w[2]), int(w[3])
         body = mk_body(ln, seed)
         its = [x.split(".") for x in w[5].split(",")]
@@ -914,6 +1071,8 @@ def judge_xfer(ctx, c):
     """I-vs-S for a whole transfer: the property's clauses checked on the trace of the real client + server."""
     x = parse_xfer(c["input"])
     i = c["impl"] or ""
+    if i.startswith("bad-op"):
+        return ("tie", "the harness refused the line")
     if i.startswith("crash") or not i or "end:" not in i:
         return ("spec", "the transfer crashed or hung the real code: " + i[:200])
     if " LEAK=" in i:
@@ -924,14 +1083,16 @@ def judge_xfer(ctx, c):
     if "txcap" in toks:
         return None                              # harness limit (datagram store full): nothing is judged
     lossless = x["dir"] == "rawput" or set(x["sched"]) <= {"d", "-"}
-    duplicated = "2" in x["sched"] or (x["dir"] == "rawput" and len(set(x["sched"].split(","))) != len(x["sched"].split(",")))
+    # D6: a duplicated REQUEST datagram is a new request.  A duplicated / delayed RESPONSE is not: the receiving side must cope.
+    duplicated = x["dir"] == "rawput" and len(set(x["sched"].split(","))) != len(x["sched"].split(","))
     deliveries = [[] for _ in range(ntr)]       # what the RECEIVING application got: (off, total, len, hash)
     final = [[] for _ in range(ntr)]            # client-side response handler calls (code)
     nacks = [0] * ntr
     rel = None
-    con_tx = {}                                 # client CON mid -> transmissions
+    con_tx = {}                                 # client CON mid -> [transmissions, transfer]
     blockwise = [False, False]                  # per transfer: more than one block was involved (seen on its first exchange)
-    concluded = False                           # some final response already reached the application
+    tokmap = {}                                 # token (hex) seen in a client request -> transfer index
+    raw = []                                    # handler calls that showed a token the application never chose
     for t in toks:
         f = t.split(":")
         if f[0] == "tx":
@@ -942,24 +1103,39 @@ def judge_xfer(ctx, c):
             for bf in (f[5], f[6]):
                 if bf not in ("-", "bad") and (bf.split(".")[0] != "0" or bf.split(".")[1] == "1") and f[4] in ("app1", "app2"):
                     blockwise[int(f[4][3]) - 1] = True
+            which = int(f[15]) if len(f) > 15 else 0
             if f[1] == "c" and f[2] == "C":
-                con_tx[f[14]] = con_tx.get(f[14], 0) + 1
+                e = con_tx.setdefault(f[14], [0, which])
+                e[0] += 1
+            if f[1] == "c" and len(f) > 17:
+                if which and f[16] != "-":
+                    tokmap.setdefault(f[16], which - 1)
+                if f[17] in ("2", "z") and 1 <= int(f[3]) <= 31:
+                    duplicated = True
         elif f[0] == "req" and x["dir"] in ("put", "rawput"):
             deliveries[int(f[1]) - 1].append((int(f[2]), int(f[3]), int(f[4]), f[5]))
         elif f[0] == "rsp":
-            if f[1] not in ("app1", "app2"):
-                return ("spec", "%s: response handler saw a token the application never chose (%s): %s" % (
-                    "late" if concluded else "live", f[1], t))
-            k = int(f[1][3]) - 1
             code = int(f[2])
+            if f[1] not in ("app1", "app2"):
+                # a token the application never chose.  Whose transfer is it, and does libcoap still know ?
+                k = tokmap.get(f[9]) if len(f) > 9 else None
+                held = len(f) > 10 and f[10] == "1"
+                unsolicited = len(f) > 8 and f[7] not in ("-", "bad") and f[8] == "0"
+                raw.append(("live" if held else ("unsolicited" if unsolicited else "late"), "response", t))
+                if k is not None and k < ntr and x["dir"] == "get" and code == 69:
+                    deliveries[k].append((int(f[3]), int(f[4]), int(f[5]), f[6]))
+                continue
+            k = int(f[1][3]) - 1
             final[k].append(code)
-            if code != 95:
-                concluded = True
             if x["dir"] == "get" and code == 69:
                 deliveries[k].append((int(f[3]), int(f[4]), int(f[5]), f[6]))
         elif f[0] == "nack":
+            if f[1] == "nopdu":
+                continue
             if f[1] not in ("app1", "app2"):
-                return ("spec", "%s: nack handler saw a token the application never chose: %s" % ("late" if concluded else "live", t))
+                held = len(f) > 4 and f[4] == "1"
+                raw.append(("live" if held else "late", "nack", t))
+                continue
             nacks[int(f[1][3]) - 1] += 1
         elif f[0] == "relcount":
             rel = [int(f[1]), int(f[2])]
@@ -970,7 +1146,8 @@ def judge_xfer(ctx, c):
                 deliveries[0].remove(dlv)
                 deliveries[1].append(dlv)
     nreq = [sum(1 for t in toks if t.startswith("req:%d:" % (k + 1))) for k in range(ntr)]
-    exhausted = any(n >= 5 for n in con_tx.values())     # 1 + MAX_RETRANSMIT transmissions of one Confirmable message
+    exhausted = any(n >= 5 for n, _ in con_tx.values())     # 1 + MAX_RETRANSMIT transmissions of one Confirmable message
+    verdict = None
     for k in range(ntr):
         body, ln = bodies[k], x["len"][k]
         dl = deliveries[k]
@@ -1002,6 +1179,12 @@ def judge_xfer(ctx, c):
                     pos = o + l
                 if pos != ln:
                     return ("spec", "transfer %d: delivered blocks cover %d of %d bytes" % (k + 1, pos, ln))
+            elif x["dir"] == "get" and blockwise[k] and not duplicated and nreq[k] == 1:
+                # one body was served (one GET handler call) and no request datagram was duplicated: whatever the network did to
+                # the RESPONSES, no offset may reach the handler twice
+                offs = [o for (o, _, l, _) in dl if l]
+                if len(offs) != len(set(offs)):
+                    return ("spec", "transfer %d: a block was handed to the response handler twice: offsets %s" % (k + 1, sorted(offs)[:12]))
         if x["dir"] != "rawput":
             ok_code = 68 if x["dir"] == "put" else 69
             succ = [cd for cd in final[k] if cd == ok_code]
@@ -1018,15 +1201,31 @@ def judge_xfer(ctx, c):
                 if not succ or (x["single"] and len(succ) != 1):
                     return ("spec", "transfer %d: nothing lost or duplicated, yet the client saw responses %s" % (k + 1, final[k]))
             # "if a Confirmable exchange is abandoned the requester is told": abandoned = the client gave up retransmitting
-            if x["con"] and exhausted and not succ and not sum(nacks) and not errs and ntr == 1:
+            if x["con"] and exhausted and not succ and not sum(nacks) and not errs and ntr == 1 and not raw:
                 return ("spec", "transfer %d: Confirmable message retransmitted to exhaustion without a NACK or an error response" % (k + 1))
+            # … and told about THAT exchange: a message of transfer k was given up, so transfer k's token must show up in a NACK
+            # or in a final response
+            if x["con"] and any(n >= 5 and wh == k + 1 for n, wh in con_tx.values()) and not final[k] and not nacks[k] and not raw:
+                return ("spec", "transfer %d: one of its Confirmable messages was retransmitted to exhaustion, but neither a NACK nor any "
+                                "response with its token reached the application" % (k + 1))
             # one release per body handed to libcoap: one per PUT, one per GET handler call that supplied the body
             want_rel = 1 if x["dir"] == "put" else nreq[k]
             if rel is not None and rel[k] != want_rel:
                 return ("spec", "transfer %d: release callback ran %d times for %d bodies handed to libcoap" % (k + 1, rel[k], want_rel))
     if x["con"] and exhausted and ntr == 2 and not sum(nacks) and not any(cd >= 128 for f_ in final for cd in f_) and \
-            not all(any(cd in (68, 69) for cd in f_) for f_ in final):
+            not all(any(cd in (68, 69) for cd in f_) for f_ in final) and not raw:
         return ("spec", "Confirmable message retransmitted to exhaustion without a NACK or an error response")
+    # handlers only ever see the application's own token.  `live`: at the time of the call the session still holds the lg_crcv /
+    # lg_xmit the token belongs to - libcoap has everything it needs to put the application's token back.  `unsolicited`: a Block2
+    # response without lg_crcv and without request, which coap_handle_response_get_block drops.  `late`: the open finding (the
+    # transfer's state is gone and libcoap keeps no record of the tokens it used).
+    for cls in ("live", "unsolicited", "late"):
+        for (c_, what, t) in raw:
+            if c_ == cls:
+                return ("spec", "%s: %s handler saw a token the application never chose%s: %s" % (
+                    cls, what, {"live": " while libcoap still holds the transfer it belongs to",
+                                "unsolicited": " on a Block2 response that belongs to no transfer and answers no request",
+                                "late": ""}[cls], t))
     return None
 
 
@@ -1083,6 +1282,53 @@ def gen_layer_b(ctx, n):
     return L
 
 
+def gen_layer_b_rules(ctx, n):
+    """whole transfers under content-keyed faults (what positional schedules over the first dozen datagrams hardly ever reach):
+    the datagram with block k - first, middle, LAST - of a given transfer is delivered twice / delivered again seconds later
+    (after the transfer was concluded) / lost once / lost for good together with all its retransmissions (the exchange is
+    abandoned); one transfer or two concurrent ones on the session, the faults hitting the older or the younger one; GET and
+    PUT, CON and NON, both delivery modes, with and without positional noise"""
+    rng = ctx.rng
+    L = []
+    for _ in range(n):
+        d = rng.choice(["get", "get", "get", "put", "put", "putt"])
+        szx = rng.choice([0, 1, 2, 2, 3, 4, 6])
+        c = 1 << (szx + 4)
+        side = rng.choice(["c", "s", "c"])
+        cszx, sszx = (szx, None) if side == "c" else (None, szx)
+        mtu = rng.choice([1152, 1152, 1500, c + rng.randrange(90, 200)])
+        nbs = [rng.choice([2, 2, 3, 3, 4, 5, 7]) for _ in (0, 1)]
+        lens = [nb * c - rng.choice([0, 0, 1, c - 1, rng.randrange(c)]) for nb in nbs]
+        two = rng.random() < 0.45
+        kind = rng.choice(["dup", "dup", "late", "late", "abandon", "abandon", "abandon", "lose1", "mix"])
+        con = 1 if kind == "abandon" else rng.choice([1, 0, 0])
+        single = rng.choice([1, 1, 0])
+        rules = []
+        for _ in range(1 if kind != "mix" else rng.randrange(1, 4)):
+            who = rng.choice([1, 2]) if two else 1
+            nb = nbs[who - 1]
+            num = rng.choice(["L", "L", 0, 1, nb - 1, max(0, nb - 2), rng.randrange(nb + 1)])
+            sd = rng.choice("qr")
+            if num == "L" and d == "get":
+                sd = "r"
+            k = rng.choice(["dup", "late", "abandon", "lose1"]) if kind == "mix" else kind
+            if k == "abandon":
+                if not con:
+                    k = "lose1"
+                elif rng.random() < 0.75:
+                    sd = "q"
+            fate = {"dup": "2", "late": "z%s" % rng.choice(["", "", "300", "900", "1500", "9000", "100000"]), "abandon": "x", "lose1": "1"}[k]
+            numtxt = str(num) + ("." if fate in ("1", "2") and num not in ("L", "*") else "")
+            rules.append("~%d%s%s%s" % (who, sd, numtxt, fate))
+        base = "-" if rng.random() < 0.7 else "".join(rng.choice("dddddx2") for _ in range(rng.randrange(3, 10)))
+        line = "xfer %s %d %d %s %s %d %d %d %s" % (d, lens[0], rng.randrange(256), "-" if cszx is None else cszx,
+                                                   "-" if sszx is None else sszx, mtu, con, single, base + "".join(rules))
+        if two:
+            line += " %d %d" % (lens[1], rng.randrange(256))
+        L.append(line)
+    return L
+
+
 def short(s):
     return s if s is None or len(s) < 200 else s[:190] + "…"
 
@@ -1099,7 +1345,8 @@ def classify(c):
 
 def search(ctx, tie_breaks, proof):
     return gen_layer_a(ctx, 1500) + gen_crcv(ctx.rng, 3000) + gen_xmit(ctx.rng, 1500) + gen_rtag(ctx.rng, 1500) + \
-        gen_crcv_hostile(ctx.rng, 3000) + gen_xmit1_hostile(ctx.rng, 1500) + gen_srcv_hostile(ctx.rng, 3000)
+        gen_crcv_hostile(ctx.rng, 3000) + gen_xmit1_hostile(ctx.rng, 1500) + gen_srcv_hostile(ctx.rng, 3000) + \
+        gen_crcvs(ctx.rng, 1500) + gen_ctok(ctx.rng, 1500) + gen_layer_b_rules(ctx, 600)
 
 
 def known(ctx, c):
